@@ -45,7 +45,7 @@ def probe_runs(c, base_steps, final, prefix, counter):
                 # the driver computes the honest request from the OBSERVED stored state, so the probe stays
                 # honest even when the implementation has drifted from the model on the way here
                 counter[0] += 1
-                runs.append({"id": "%s%d" % (prefix, counter[0]), "steps": base_steps + [{"op": "probe", "log": l, "n": n}]})
+                runs.append({"id": "%s%d" % (prefix, counter[0]), "steps": base_steps + [{"op": "probe", "log": l, "n": n, "ext": counter[0] % 2}]})
     return runs
 
 
